@@ -24,7 +24,9 @@ from ai_edge_quantizer import params_generator
 PROP = 'C10'
 LEVEL = 'model_checking'
 FUNCS = [calibrator.Calibrator._get_op_scope,
-         params_generator.ParamsGenerator._get_op_scope]
+         params_generator.ParamsGenerator._get_op_scope,
+         calibrator.Calibrator.calibrate,
+         params_generator.ParamsGenerator.generate_quantization_parameters]
 ASSUMPTIONS = [
     'tfl_flatbuffer_utils.get_tensor_name rebound to return the symbolic name '
     'of the harness tensors (names are arbitrary strings, length <= 6 over '
@@ -91,7 +93,9 @@ def job_scope(job):
   return r
 
 
-REACH = {'scope': ['scope']}
+REACH = {'scope': ['scope'], 'flow': ['flow']}
+USES_SHIM = True
+USES_FAKE_INTERPRETER = True
 
 
 def jobs(tier, seed):
@@ -104,7 +108,152 @@ def jobs(tier, seed):
       js.append(Job('scope:' + ''.join('1' if p else '0' for p in pattern),
                     job_scope, {'pattern': list(pattern), 'max_len': max_len,
                                 'alphabet': alphabet}))
+  fc = _flow_cases(tier)
+  for i in range(0, len(fc), 6):
+    js.append(Job(f'flow:{i // 6}', job_flow, {'tier': tier,
+                                               'cases': fc[i:i + 6]}))
   return js
+
+
+# ---------------------------------------------------------------------------
+# part 2: calibrate() then quantize() on the skeleton family, every signature
+# ---------------------------------------------------------------------------
+def make_flow_harness(model_bytes, recipe):
+  import copy
+  import z3 as _z3
+  from props import c09, pipeline as P
+  from symx import backends as B, fakeinterp, symnp
+  from symx.core import Inconclusive
+  from ai_edge_quantizer import algorithm_manager, qtyping
+  from tensorflow.lite.tools import flatbuffer_utils
+
+  def h(e):
+    be = symnp.set_backend(B.UF())
+    be.reset()
+    fakeinterp.STATE.update(sample=0, tag='', content=None)
+    model = flatbuffer_utils.read_model_from_bytearray(bytearray(model_bytes))
+    log = []
+    real_get = algorithm_manager.get_quantization_func
+
+    def logging_get(alg, op_key, mode):
+      log.append((getattr(mode, 'name', str(mode)), getattr(alg, 'value', alg),
+                  getattr(op_key, 'value', op_key)))
+      return real_get(alg, op_key, mode)
+
+    res = None
+    with patch.symbolic_numpy(), patch.rebind(
+        'ai_edge_quantizer.utils.tfl_interpreter_utils', 'tfl',
+        fakeinterp.Module), patch.rebind(
+            'ai_edge_quantizer.algorithm_manager', 'get_quantization_func',
+            logging_get):
+      try:
+        for key, _ in c09.signatures(model):
+          res = c09.calibrate(model_bytes, recipe, key, [0], previous=res)
+      except Inconclusive:
+        raise
+      except Exception as ex:  # pylint: disable=broad-except
+        e.reach('flow')
+        e.check('C10.flow.calibrate_every_signature_does_not_raise', False,
+                info=[f'{type(ex).__name__}: {str(ex)[:120]}'])
+        return
+    cal = sorted(x[1:] for x in log if x[0] == 'CALIBRATE')
+    del log[:]
+    with patch.rebind('ai_edge_quantizer.algorithm_manager',
+                      'get_quantization_func', logging_get):
+      out = P.run_pipeline(e, model_bytes, recipe, 'UF', qsvs=res)
+    e.reach('flow')
+    mat = sorted(x[1:] for x in log if x[0] == 'MATERIALIZE')
+    ex = out.raised
+    missing = ex is not None and ('tensor_name_to_qsv' in str(ex)
+                                  or 'min and max must be provided' in str(ex)
+                                  or 'QSVs' in str(ex))
+    e.check('C10.flow.quantize_never_misses_statistics', not missing,
+            info=None if ex is None else [f'{type(ex).__name__}: '
+                                          f'{str(ex)[:140]}'])
+    if ex is None:
+      e.check('C10.flow.same_operators_selected_in_both_phases', cal == mat,
+              info=[cal[:6], mat[:6]])
+  return h
+
+
+def job_flow(job):
+  from props import c09, pipeline as P
+  from symx.core import Stats
+  from props.common import JobResult
+  tier = job.args['tier']
+  fam = P.skeleton_family(tier)
+  st = Stats()
+  cands, inconc = [], []
+  for skel, rname in job.args['cases']:
+    recipe = c09._recipe(skel, rname, tier)
+    en = Engine(solver_timeout_ms=30000, max_paths=300, wall_budget_s=120)
+    en.explore(make_flow_harness(fam[skel], recipe))
+    st.merge(en.stats)
+    inconc += [f'{skel}/{rname}: {x}' for x in en.inconclusive]
+    seen = set()
+    for v in en.violations:
+      if v.name in seen:
+        continue
+      seen.add(v.name)
+      c = Candidate(v.name, {'tag': 'flow', 'skeleton': skel, 'recipe': rname,
+                             'info': v.info})
+      c.job = job.name
+      cands.append(c)
+  return JobResult(job.name, st.as_dict(), cands, inconc, {}, samples=[
+      f'calibrate every signature (fake interpreter) then quantize: '
+      f'{job.args["cases"][:2]}'])
+
+
+def _flow_cases(tier):
+  from props import c09, pipeline as P
+  fam = P.skeleton_family(tier)
+  names = list(fam) if tier == 'thorough' else [
+      k for k in fam if not k.startswith('single_') or k in (
+          'single_FC', 'single_EMBEDDING_LOOKUP', 'single_SPLIT',
+          'single_CONCAT_SAME', 'single_BMM_CONST', 'single_MEAN')]
+  return [(s, r) for s in names for r in ('a8w8', 'a16w8',
+                                          'only_last_op_SRQ8')]
+
+
+def _replay_flow(c):
+  """Real interpreter: calibrate every signature on random data, quantize."""
+  import copy
+  import numpy as np
+  from props import c09, pipeline as P
+  from symx import fakeinterp
+  from ai_edge_quantizer import quantizer as quantizer_lib
+  from tensorflow.lite.tools import flatbuffer_utils
+  d = c['data']
+  mb = P.skeleton_family('thorough')[d['skeleton']]
+  recipe = c09._recipe(d['skeleton'], d['recipe'], 'thorough')
+  model = flatbuffer_utils.read_model_from_bytearray(bytearray(mb))
+  q = quantizer_lib.Quantizer(mb, copy.deepcopy(recipe))
+  rng = np.random.default_rng(5)
+  res = None
+  try:
+    for key, sd in c09.signatures(model):
+      sg = model.subgraphs[sd.subgraphIndex]
+      s = {}
+      for tm in sd.inputs:
+        t = sg.tensors[tm.tensorIndex]
+        nm = tm.name.decode() if isinstance(tm.name, bytes) else tm.name
+        s[nm] = (rng.normal(size=tuple(t.shape)).astype(np.float32)
+                 if t.type == 0 else rng.integers(0, 2, size=tuple(
+                     t.shape)).astype(fakeinterp.NP[t.type]))
+      res = q.calibrate([s], key, res)
+  except Exception as ex:  # pylint: disable=broad-except
+    return True, f'calibrate raises {type(ex).__name__}', (
+        f"skeleton={d['skeleton']} recipe={d['recipe']}: calibrate: "
+        f'{type(ex).__name__}: {ex}')
+  try:
+    q.quantize(res)
+  except Exception as ex:  # pylint: disable=broad-except
+    miss = ('tensor_name_to_qsv' in str(ex) or 'min and max' in str(ex)
+            or 'QSVs) are required' in str(ex))
+    return miss, 'quantize misses statistics', (
+        f"skeleton={d['skeleton']} recipe={d['recipe']}: quantize after "
+        f'calibrate: {type(ex).__name__}: {ex}')
+  return False, 'flow', 'calibrate then quantize succeeded'
 
 
 def replay(c):
@@ -112,6 +261,8 @@ def replay(c):
   regex through the real RecipeManager.get_quantization_configs."""
   from ai_edge_quantizer import recipe_manager, qtyping
   d = c['data']
+  if d.get('tag') == 'flow':
+    return _replay_flow(c)
   pattern = [ch == '1' for ch in d['tag'].split('/')[1]]
   tensors, outputs = [], []
   for k, present in enumerate(pattern):
